@@ -2,7 +2,8 @@
    PARTIAL, and labelled so: what is proved is detailed balance of the model kernels (all parameters); that detailed balance plus
    irreducibility gives convergence of time averages (ergodic theorem), and the closed forms of the analytic averages, are cited
    mathematics; the real code is sampled statistically by the harness. *)
-From QV Require Import Model.Criteria Proofs.CriteriaProofs Proofs.BalanceProofs.
+From QV Require Import Model.Criteria Proofs.CriteriaProofs Proofs.BalanceProofs Proofs.MarkovProofs.
+From Coq Require Import List.
 From Coq Require Import Lra.
 Open Scope R_scope.
 
@@ -34,5 +35,45 @@ Theorem C01_poisson_stationary : forall a N, 0 < a ->
 Proof. exact poisson_detailed_balance. Qed.
 Print Assumptions C01_poisson_stationary.
 
+(* ---- from one trial to whole histories (finite state spaces; any number of states, kernels, steps) ---- *)
+(* a kernel in detailed balance with the target leaves it invariant *)
+Theorem C01_reversible_stationary : forall (A : Type) (S : list A) (pi : A -> R) (K : A -> A -> R),
+  stochastic S K -> reversible S pi K -> stationary S pi K.
+Proof. exact @reversible_stationary. Qed.
+Print Assumptions C01_reversible_stationary.
+(* the Metropolis-Hastings kernel of ANY proposal q (symmetric support) with acceptance min(1, pi(y) q(y,x) / (pi(x) q(x,y))) - the form of
+   every shipped criteria: symmetric q for displacements / rotations / Hamiltonian / log-volume moves (C10), q = 1/V vs 1/(N+1) for exchange - is reversible *)
+Theorem C01_mh_kernel_reversible : forall (A : Type) (S : list A) (pi : A -> R) (q K : A -> A -> R),
+  (forall x, In x S -> 0 < pi x) -> (forall x y, 0 <= q x y) -> (forall x y, q x y = 0 -> q y x = 0) ->
+  (forall x y, In x S -> In y S -> x <> y -> K x y = q x y * Rmin 1 (pi y * q y x / (pi x * q x y))) ->
+  (forall x y : A, x = y \/ x <> y) -> reversible S pi K.
+Proof. exact @mh_reversible. Qed.
+Print Assumptions C01_mh_kernel_reversible.
+(* the scheduler's weighted choice among the moves of the table *)
+Theorem C01_move_choice_invariant : forall (A : Type) (S : list A) (pi : A -> R) (wk : list (R * (A -> A -> R))),
+  Forall (fun p => stationary S pi (snd p)) wk -> fold_right (fun p s => fst p + s) 0 wk = 1 -> stationary S pi (mixl wk).
+Proof. exact @stationary_mixl. Qed.
+Print Assumptions C01_move_choice_invariant.
+(* one move after another: the cycles of a step, the parts of a composite move (not reversible in general, still invariant) *)
+Theorem C01_sequence_invariant : forall (A : Type) (S : list A) (pi : A -> R) (K1 K2 : A -> A -> R),
+  stationary S pi K1 -> stationary S pi K2 -> stationary S pi (comp S K1 K2).
+Proof. exact @stationary_comp. Qed.
+Print Assumptions C01_sequence_invariant.
+(* a failed / vetoed trial leaves the state where it was *)
+Theorem C01_failed_trial_invariant : forall (A : Type) (S : list A) (pi : A -> R) (eqb : A -> A -> bool),
+  (forall x y, eqb x y = true <-> x = y) -> NoDup S -> stationary S pi (ident eqb).
+Proof. exact @stationary_ident. Qed.
+Print Assumptions C01_failed_trial_invariant.
+(* arbitrarily long histories: a chain started in the target stays in it after any list of invariant kernels *)
+Theorem C01_history_invariant : forall (A : Type) (S : list A) (pi : A -> R) (Ks : list (A -> A -> R)) (mu : A -> R),
+  Forall (stationary S pi) Ks -> (forall y, In y S -> mu y = pi y) -> forall y, In y S -> fold_left (push S) Ks mu y = pi y.
+Proof. exact @history_invariant. Qed.
+Print Assumptions C01_history_invariant.
+Example C01_chain_nonvacuous :
+  let S := (true :: false :: nil) in
+  let pi := fun b : bool => if b then 1 else 2 in
+  let K := fun x y : bool => if Bool.eqb x y then (if x then 0 else 1 / 2) else (if x then 1 else 1 / 2) in
+  stochastic S K /\ reversible S pi K /\ stationary S pi K.
+Proof. exact two_state_reversible. Qed.
 Example C01_nonvacuous : 0 < 2 /\ 2 ^ 1 / INR (fact 1) * Rmin 1 (2 / (INR 1 + 1)) = 2.
 Proof. split; [lra|]. simpl. rewrite Rmin_left by lra. lra. Qed.
